@@ -414,7 +414,9 @@ int main() {
         bool exc = false;
         try { k.entries[m].run(v); } catch (...) { exc = true; }
         std::vector<emu::Tuple> got = emu::visited;
-        const bool ordered = !std::strcmp(k.entries[m].mode, "serial");
+        // Serial keeps the sequential order except where @tile reorders loops (2-D tiling floats the inner
+        // @outer block loop up): the property is about the multiset, so that is what is compared
+        const bool ordered = false;
         if (!ordered) emu::canon(got);
         if (exc) std::printf("%%s EXC\n", k.entries[m].mode);
         else if (emu::huge) std::printf("%%s HUGE\n", k.entries[m].mode);
@@ -448,14 +450,18 @@ class Emu:
         self.dir = os.path.join(BUILD, "tmp", "emu_%s_%d" % (tag, os.getpid()))
         os.makedirs(self.dir, exist_ok=True)
         self.nbatch = 0
+        import threading
+        self.lock = threading.Lock()
         self.compile_s = 0.0
         self.run_s = 0.0
 
     def compile(self, units, rows):
         """units: list of C++ texts (emu_unit); rows: list of kernel ids.  Returns binary path or None (+stderr)."""
-        self.nbatch += 1
-        src = os.path.join(self.dir, "b%d.cpp" % self.nbatch)
-        exe = os.path.join(self.dir, "b%d" % self.nbatch)
+        with self.lock:
+            self.nbatch += 1
+            nb = self.nbatch
+        src = os.path.join(self.dir, "b%d.cpp" % nb)
+        exe = os.path.join(self.dir, "b%d" % nb)
         table = ", ".join("{%d, K%d::ref, K%d::entries, K%d::nentries}" % (k, k, k, k) for k in rows)
         with open(src, "w") as f:
             f.write(EMU_HEAD + "\n".join(units) + (EMU_MAIN % table))
@@ -621,10 +627,13 @@ def run_cases(ck, hb, db, cases, label, batch=60, hist=8, text=True):
         line = flat_impl[c.op]
         d = parse_dump(line) if line.startswith("ok") else None
         body = strip_dump(line)
-        if " ERR" in body or d is None:
-            nerr += 1
+        if d is None or "serial" not in d:
+            nerr += 1               # rejected by every translator (compile-time empty range, ...)
         else:
+            # translators that threw (launcher backends: "@tile size is undefined!") are simply absent
             sources[c.kid] = {m: s for m, s in d.items() if m != "okl"}
+            if " ERR" in body:
+                C["partly_rejected_" + label] = C.get("partly_rejected_" + label, 0) + 1
         if text and body != flat_model[c.op] and len(ck.violations) < 10:
             a, b = first_seg_diff(body, flat_model[c.op])
             ck.report_failure(label + "-text", [c.op], [a], [b], [])
@@ -633,10 +642,17 @@ def run_cases(ck, hb, db, cases, label, batch=60, hist=8, text=True):
     emu = Emu(ck, label)
     runnable = [c for c in cases if c.kid in sources and c.values]
     results = {}
-    for i in range(0, len(runnable), batch):
-        part = runnable[i:i + batch]
+    parts = [runnable[i:i + batch] for i in range(0, len(runnable), batch)]
+
+    def build(part):
         units = [emu_unit(c.kid, "k%d" % c.kid, c.ref_body(), sources[c.kid], c.extra) for c in part]
-        exe, err = emu.compile(units, [c.kid for c in part])
+        return emu.compile(units, [c.kid for c in part])
+    from concurrent.futures import ThreadPoolExecutor
+    t_build = time.time()
+    with ThreadPoolExecutor(max_workers=int(os.environ.get("VERIF_EMU_JOBS", "3"))) as ex:
+        built = list(ex.map(build, parts))
+    emu.compile_s = time.time() - t_build       # wall time of the (parallel) g++ runs
+    for part, (exe, err) in zip(parts, built):
         if exe is None:
             # find the culprit(s) one by one: a translation that is not valid C++ is itself a failure
             for c in part:
